@@ -440,6 +440,8 @@ def spec_scale(method, n, order):
 
 
 def run_scale(tier):
+    from .common import defaults_facts
+    defaults_facts(['step_generators.MinStepGenerator.__init__', 'step_generators.MaxStepGenerator.__init__', 'limits.CStepGenerator.__init__'])
     sg = mods()['sg']
     rng = range(1, 11)
     badt = [(m_, n_, o_, sg.default_scale(m_, n_, o_), spec_scale(m_, n_, o_)) for m_ in METHODS + ['central2'] for n_ in range(1, 13) for o_ in range(1, 11)
